@@ -58,6 +58,7 @@ structure CMon where
   got : List Nat := []        -- guest-reader: items in the vector being filled, not yet reported
   slab : Bool := false
   opMoved : Nat := 0          -- items the host moved since the current operation began
+  sinceTold : Nat := 0        -- items the host moved since it last told the guest a code
   received : List Nat := []   -- everything the peer got, in order
   given : Nat := 0            -- number of items the peer gave (they are numbered 1,2,…)
   returned : List Nat := []   -- everything the read API reported, in order
@@ -70,8 +71,8 @@ structure CMon where
 deriving DecidableEq, Repr
 
 def told (m : CMon) (code : Nat) : CMon :=
-  if code == BLOCKED then { m with started := true }
-  else { m with started := true, lastCode := some code,
+  if code == BLOCKED then { m with started := true, sinceTold := 0 }
+  else { m with started := true, lastCode := some code, sinceTold := 0,
                 doneSeen := m.doneSeen || codeBase code == DROPPED,
                 valueSent := m.valueSent || codeBase code == COMPLETED }
 
@@ -98,8 +99,10 @@ def step (k : CSpec) (m : CMon) : Ev → Except String CMon
     else .ok { m with win := [first], opMoved := 0 }
   | .ch .ifw [c, id] | .ch .defv [c, id] =>
     if c ≠ k.c then .ok m else .ok { m with rust := m.rust ++ [id], toLower := [id], started := false, lastCode := none }
-  | .ch .ib [c] | .ch .ir [c, _] | .ch .inx [c] | .ch .ico [c] =>
-    if c ≠ k.c then .ok m else .ok { m with opMoved := 0 }
+  | .ch .ib [c] => if c ≠ k.c then .ok m else .ok { m with opMoved := 0 }
+  | .ch .ir [c, _] | .ch .inx [c] | .ch .ico [c] =>
+    -- a new read fills a fresh vector (canonical items a dropped read had received are gone silently)
+    if c ≠ k.c then .ok m else .ok { m with opMoved := 0, got := if k.lowers then m.got else [] }
   | .ch .ifr [c] => if c ≠ k.c then .ok m else .ok { m with started := false, lastCode := none }
   -- payload callbacks
   | .ch .lo [c, id] =>
@@ -132,18 +135,18 @@ def step (k : CSpec) (m : CMon) : Ev → Except String CMon
     if k.gw then
       if m.win.take ids.length ≠ ids then .error "fifo-not-next-items" else
       if m.received.length + ids.length > 1 && k.fut then .error "reader-value-twice" else
-      .ok { m with win := m.win.drop ids.length, received := m.received ++ ids, opMoved := m.opMoved + ids.length,
+      .ok { m with win := m.win.drop ids.length, received := m.received ++ ids, opMoved := m.opMoved + ids.length, sinceTold := m.sinceTold + ids.length,
                    sent := if k.lists || k.fut then m.sent ++ ids else m.sent }
     else
       if ids ≠ List.range' (m.given + 1) ids.length then .error "fifo-not-next-items" else
       if m.given + ids.length > 1 && k.fut then .error "reader-value-twice" else
-      .ok { m with given := m.given + ids.length, opMoved := m.opMoved + ids.length,
+      .ok { m with given := m.given + ids.length, opMoved := m.opMoved + ids.length, sinceTold := m.sinceTold + ids.length,
                    inbuf := if k.lowers then m.inbuf ++ ids else m.inbuf,
                    got := if k.lowers then m.got else m.got ++ ids }
   -- what the host tells the guest
   | .ch .swrite [h, n, code] =>
     if h ≠ m.handle || m.handle = 0 then .ok m else
-    if n ≠ m.win.length then .error "fifo-window-size" else
+    if n ≠ m.win.length + m.sinceTold then .error "fifo-window-size" else
     .ok { (told m code) with slab := m.slab }
   | .ch .sread [h, n, code] =>
     if h ≠ m.handle || m.handle = 0 then .ok m else .ok { (told m code) with slab := m.slab || (k.lowers && n != 0) }
